@@ -41,6 +41,13 @@ static int f_find(const char *n) { for (int i = 0; i < nf; ++i) if (!strcmp(f_na
 void feat(const char *name, double v) { int i = f_find(name); f_val[i] = v; f_is_s[i] = 0; }
 void feat_add(const char *name, double v) { int i = f_find(name); f_val[i] += v; }
 void feat_str(const char *name, const char *v) { int i = f_find(name); f_is_s[i] = 1; snprintf(f_sval[i], 96, "%s", v); }
+static char ctxs[256]; 
+void hx_ctx_add(const char *w)
+{
+    if (strstr(ctxs, w)) return;
+    size_t L = strlen(ctxs); snprintf(ctxs + L, sizeof ctxs - L, "%s%s", L ? "," : "", w);
+    char line[96]; int n = snprintf(line, sizeof line, "HXCTX %s\n", w); ssize_t w_ = write(2, line, n); (void)w_;
+}
 static char notes[2048]; static size_t notes_len = 0;
 void note(const char *fmt, ...) { va_list ap; va_start(ap, fmt); if (notes_len < sizeof notes - 2) { notes_len += vsnprintf(notes + notes_len, sizeof notes - notes_len, fmt, ap);
         if (notes_len < sizeof notes - 2) notes[notes_len++] = ';'; notes[notes_len < sizeof notes ? notes_len : sizeof notes - 1] = 0; } va_end(ap); }
@@ -65,12 +72,14 @@ static void export_mon(void)
     feat("npanels", g_mon.npanels); feat("nrelaxed", g_mon.nrelaxed); feat("upd_done", g_mon.updates_done); feat("upd_busy", g_mon.updates_busy);
     feat("min_slack", g_mon.min_slack); feat("tail_max", g_mon.tail_max); feat("prune_while_dfs", g_mon.prune_while_dfs);
     feat("lusup_allocs", g_mon.lusup_allocs); feat("dyn_setmaps", g_mon.dyn_setmaps);
-    feat("takes_with_busy", g_mon.takes_with_busy); feat("thr_start", g_mon.thread_starts); feat("thr_exit", g_mon.thread_exits);
+    feat("takes_with_busy", g_mon.takes_with_busy); feat("singular_events", g_mon.singular_events); feat("no_candidate", g_mon.no_candidate); feat("tight_slots", g_mon.tight_slots); feat("thr_start", g_mon.thread_starts); feat("thr_exit", g_mon.thread_exits);
 }
 static void emit(const char *v, const char *sig, const char *detail)
 {
     static char buf[16384], e1[1024], e2[4096], e3[4096];
     export_mon();
+    static char sigx[600];
+    if (sig && *sig && ctxs[0] && strcmp(v, "pass") && strcmp(v, "skip")) { snprintf(sigx, sizeof sigx, "%s|ctx=%s", sig, ctxs); sig = sigx; }
     json_escape(e1, sizeof e1, sig ? sig : ""); json_escape(e2, sizeof e2, detail ? detail : ""); json_escape(e3, sizeof e3, notes);
     size_t o = snprintf(buf, sizeof buf, "{\"v\":\"%s\",\"sig\":\"%s\",\"detail\":\"%s\",\"notes\":\"%s\",\"f\":{", v, e1, e2, e3);
     for (int i = 0; i < nf && o < sizeof buf - 200; ++i) {
@@ -260,6 +269,11 @@ static int run_case_forked(char *text, long timeout_ms, char *out, size_t outn)
         if (efd >= 0) { off_t sz = lseek(efd, 0, SEEK_END); off_t from = sz > 5900 ? sz - 5900 : 0; ssize_t r = pread(efd, tail, (size_t)(sz - from), from); if (r < 0) r = 0; tail[r] = 0; }
         /* find the summary in the whole text if the tail missed it */
         summarize_crash(tail, WIFSIGNALED(status) ? WTERMSIG(status) : 0, WIFEXITED(status) ? WEXITSTATUS(status) : 0, sg, sizeof sg);
+        if (efd >= 0) { static char all[1 << 16]; ssize_t r2 = pread(efd, all, sizeof all - 1, 0); if (r2 < 0) r2 = 0; all[r2] = 0;
+            const char *cx = strstr(all, "HXCTX "); int first = 1;
+            while (cx) { char w[64]; sscanf(cx + 6, "%63s", w); size_t L = strlen(sg); snprintf(sg + L, sizeof sg - L, "%s%s", first ? "|ctx=" : ",", w); first = 0; cx = strstr(cx + 6, "HXCTX "); }
+            const char *ph = strstr(all, "HXPHASE "); const char *last = NULL; while (ph) { last = ph; ph = strstr(ph + 1, "HXPHASE "); }
+            if (last) { char w[64]; sscanf(last + 8, "%63s", w); size_t L = strlen(sg); snprintf(sg + L, sizeof sg - L, "|phase=%s", w); } }
         json_escape(esc, sizeof esc, tail);
         char sge[400]; json_escape(sge, sizeof sge, sg);
         snprintf(out, outn, "{\"v\":\"crash\",\"sig\":\"%s\",\"detail\":\"%s\",\"f\":{}}\n", sge, esc);
@@ -288,7 +302,7 @@ int main(int argc, char **argv)
         FILE *f = fopen(argv[2], "r"); if (!f) { perror(argv[2]); return 2; }
         char *text = read_all(f, NULL); fclose(f);
         long to = timeout_of(text);
-        if (argc >= 4 && !strcmp(argv[3], "--inline")) { g_verdict_fd = 1; run_child(text); return 0; }
+        if (argc >= 4 && !strcmp(argv[3], "--inline")) { g_verdict_fd = 1; g_err_fd = 2; run_child(text); return 0; }
         run_case_forked(text, to, out, sizeof out);
         fputs(out, stdout);
         return (strstr(out, "\"v\":\"pass\"") || strstr(out, "\"v\":\"skip\"") || strstr(out, "\"v\":\"libexit\"")) ? 0 : 1;
